@@ -124,7 +124,10 @@ def check(model_proto, model, dangling=False):
     for f in model.functions.values():
         fmap[(f.domain, f.name, f.overload)] = f
     fpairs = []
+    ids = [(fp.domain if fp.domain != "ai.onnx" else "", fp.name, getattr(fp, "overload", "")) for fp in model_proto.functions]
     for fp in model_proto.functions:
+        if ids.count((fp.domain if fp.domain != "ai.onnx" else "", fp.name, getattr(fp, "overload", ""))) > 1:
+            continue  # a function id that occurs twice has no unique IR counterpart
         f = fmap.get((fp.domain if fp.domain != "ai.onnx" else "", fp.name, getattr(fp, "overload", "")))
         if f is None:
             continue
